@@ -1034,6 +1034,9 @@ bool ConnRef::generatePath(void)
     freeRoutes();
     PolyLine& output_route = m_route;
     output_route.ps = clippedPath;
+    // Record the length of the new route.  It is compared against an
+    // estimate of a better route when an obstacle moves away or is deleted.
+    calcRouteDist();
  
 #ifdef PATHDEBUG
     db_printf("Output route:\n");
